@@ -420,6 +420,7 @@ func (c *Check) Finish() int {
 	os.MkdirAll(filepath.Join(c.VerifDir, "evidence"), 0o755)
 	b, _ := json.MarshalIndent(ev, "", " ")
 	if c.noEvidence {
+		fmt.Printf("%s %s: %d obligations, %d discharged, %d known findings, %d violations/undecided\n", c.Prop, c.Tier, total, discharged, len(knownLines), len(viol))
 		for _, o := range viol {
 			fmt.Printf("  %s %s %s: %s [%s]\n", strings.ToUpper(o.Status), o.Rule, o.Pos, o.Desc, o.Key)
 		}
